@@ -527,6 +527,13 @@ func c18Refresh(c *Ctx) {
 			return ok && now.Call.IsInvoke() && now.Call.Method.Name() == "Now"
 		}
 		okPhi := phi != nil
+		if phi == nil {
+			// no loop-carried delay: the delay must be computed inside the loop,
+			// i.e. anew for every wait
+			if call, isC := after.Call.Args[0].(*ssa.Call); isC && isUntilNext(call) && core.InLoop(call) {
+				okPhi = true
+			}
+		}
 		if phi != nil {
 			var chk func(v ssa.Value, depth int) bool
 			chk = func(v ssa.Value, depth int) bool {
@@ -594,18 +601,51 @@ func c18Refresh(c *Ctx) {
 			c.check(okE, "C18.refresh.loop", loop, "errHdlr.Handle(ctx, err) iff refresh returned err != nil", call, "every refresh error reaches the handler, with that error")
 		})
 		if refreshCall != nil {
-			// a non-nil error must reach Handle on every path: the err != nil edge leads to a block containing Handle
+			// a non-nil error must reach Handle on every path: from the err != nil
+			// edge to the end of the iteration exactly one Handle call
 			okAll := false
 			for _, r := range core.Refs(refreshCall) {
-				if bo, ok := r.(*ssa.BinOp); ok && bo.Op == token.NEQ {
-					for _, rr := range core.Refs(bo) {
-						if iff, ok := rr.(*ssa.If); ok {
-							for _, in := range iff.Block().Succs[0].Instrs {
-								if isHandle(in) {
-									okAll = true
-								}
-							}
+				bo, ok := r.(*ssa.BinOp)
+				if !ok || (bo.Op != token.NEQ && bo.Op != token.EQL) || !(core.IsNilConst(bo.X) || core.IsNilConst(bo.Y)) {
+					continue
+				}
+				for _, rr := range core.Refs(bo) {
+					iff, ok := rr.(*ssa.If)
+					if !ok {
+						continue
+					}
+					nn := iff.Block().Succs[0]
+					if bo.Op == token.EQL {
+						nn = iff.Block().Succs[1]
+					}
+					good := true
+					nlatch := 0
+					for _, p := range head.Preds {
+						if !body[p] {
+							continue
 						}
+						term := p.Instrs[len(p.Instrs)-1]
+						var mn, mx int
+						var okP bool
+						if nn == p && false {
+							continue
+						}
+						// count from the start of the non-nil successor
+						first := nn.Instrs[0]
+						mn, mx, okP = core.CountOnPaths(loop, first, term, isHandle)
+						if !okP {
+							continue
+						}
+						nlatch++
+						if isHandle(first) {
+							mn, mx = mn+1, mx+1
+						}
+						if mn != 1 || mx != 1 {
+							good = false
+						}
+					}
+					if good && nlatch > 0 {
+						okAll = true
 					}
 				}
 			}
@@ -687,12 +727,15 @@ func c18Refresh(c *Ctx) {
 			c.check(ok && mx == 1 && mn == 0, "C18.refresh.shutdown", sd, "at most one final refresh", rf, "not in a loop")
 			// its error is returned (wrapped)
 			okErr := false
+			sdFacts := core.Facts(sd)
 			for _, ret := range core.Returns(sd) {
-				if call, ok := ret.Results[0].(*ssa.Call); ok && core.CalleeName(&call.Call) == "fmt.Errorf" && variadicHas(call.Call.Args[1], rf) && guardedNonNilErr(ret, rf) {
-					okErr = true
-				}
-				if ret.Results[0] == ssa.Value(rf) {
-					okErr = true
+				for _, lf := range sdFacts.Leaves(ret.Results[0], ret) {
+					if call, ok := lf.V.(*ssa.Call); ok && core.CalleeName(&call.Call) == "fmt.Errorf" && variadicHas(call.Call.Args[1], rf) && factNonNil(lf.Facts, rf) {
+						okErr = true
+					}
+					if lf.V == ssa.Value(rf) {
+						okErr = true
+					}
 				}
 			}
 			c.check(okErr, "C18.refresh.shutdown", sd, "the final refresh's error is returned", rf, "Shutdown returns the error of the final Refresh")
@@ -700,4 +743,22 @@ func c18Refresh(c *Ctx) {
 			c.check(false, "C18.refresh.shutdown", sd, "final refresh under refrOnShutdown", nil, "RefreshOnShutdown has no effect")
 		}
 	}
+}
+
+// factNonNil: the facts contain v != nil.
+func factNonNil(facts []core.Fact, v ssa.Value) bool {
+	for _, g := range facts {
+		cond, truth := core.StripNot(g.Cond, g.Truth)
+		bo, ok := cond.(*ssa.BinOp)
+		if !ok || (bo.Op != token.EQL && bo.Op != token.NEQ) {
+			continue
+		}
+		if !((bo.X == v && core.IsNilConst(bo.Y)) || (bo.Y == v && core.IsNilConst(bo.X))) {
+			continue
+		}
+		if (bo.Op == token.NEQ) == truth {
+			return true
+		}
+	}
+	return false
 }
